@@ -22,7 +22,21 @@ func genCase(t *rapid.T) Case {
 	nr := rapid.SampledFrom([]int{0, 1, 2, 2, 3, 5, 30}).Draw(t, "nrows")
 	nullPct := rapid.SampledFrom([]int{0, 20, 80}).Draw(t, "null-pct")
 	for i := 0; i < nr; i++ {
-		c.Rows = append(c.Rows, gen.Row(c.Cols, nullPct, false).Draw(t, "row"))
+		row := gen.Row(c.Cols, nullPct, false).Draw(t, "row")
+		// values whose bytes are markers of the *text* COPY format mean nothing in a binary stream
+		for j, col := range c.Cols {
+			if !row[j].IsNull() && rapid.IntRange(0, 5).Draw(t, "marker-value") == 0 {
+				switch col.T {
+				case "text", "varchar", "bpchar", "name":
+					row[j].S = rapid.SampledFrom([]string{"\\.", "\\.\n", "\\.\r\n", "\\N", "a\\.b"}).Draw(t, "marker")
+				case "int2":
+					row[j].I = 23598 // 0x5C2E
+				case "bytea":
+					row[j].Y = []byte("\\.")
+				}
+			}
+		}
+		c.Rows = append(c.Rows, row)
 	}
 	if rapid.IntRange(0, 9).Draw(t, "ext?") == 0 {
 		c.ExtLen = rapid.IntRange(1, 20).Draw(t, "ext-len")
@@ -30,7 +44,7 @@ func genCase(t *rapid.T) Case {
 	c.Trailer = rapid.Bool().Draw(t, "trailer")
 	c.Extra = rapid.IntRange(0, 3).Draw(t, "extended") == 0
 	stream, starts := c.stream()
-	switch rapid.IntRange(0, 6).Draw(t, "chunking") {
+	switch rapid.IntRange(0, 7).Draw(t, "chunking") {
 	case 0: // one message
 	case 1: // one row per message (header with the first row)
 		prev := 0
@@ -49,6 +63,15 @@ func genCase(t *rapid.T) Case {
 		if len(starts) > 0 {
 			s := rapid.SampledFrom(starts).Draw(t, "row-start")
 			c.Chunks = []int{s + rapid.IntRange(1, 9).Draw(t, "into-row")}
+		}
+	case 5: // a span of 2..4 bytes alone in its own CopyData (e.g. the bytes of a value that look like a text-format marker)
+		at := rapid.IntRange(0, max(0, len(stream)-4)).Draw(t, "isolate-at")
+		if i := indexOf(stream, []byte("\\.")); i >= 0 && rapid.Bool().Draw(t, "isolate-marker") {
+			at = i
+		}
+		c.Chunks = []int{at, rapid.IntRange(2, 4).Draw(t, "isolate-len")}
+		if at == 0 {
+			c.Chunks = c.Chunks[1:]
 		}
 	default: // arbitrary cuts with empty messages interleaved
 		n := rapid.IntRange(1, 12).Draw(t, "ncuts")
@@ -98,4 +121,13 @@ func TestReplay(t *testing.T) {
 }
 func TestReplayFuzz(t *testing.T) {
 	core.Replay(t, map[string]func(FuzzCase) core.Result{"fuzz": RunFuzz})
+}
+
+func indexOf(b, sub []byte) int {
+	for i := 0; i+len(sub) <= len(b); i++ {
+		if string(b[i:i+len(sub)]) == string(sub) {
+			return i
+		}
+	}
+	return -1
 }
